@@ -11,12 +11,16 @@ Driver ops of the sieving core of the bundled primesieve (C18 core half, model `
   psgen <start> <stop> <sieveKiB> <l1raw> <h|x>            PrimeGenerator(start, stop): all fillNextPrimes batches concatenated:
                                                            `n=<count> first=<p> last=<p> fnv=<hash of the 8-byte LE primes>` or the list
   psgenprev <start> <stop> <sieveKiB> <l1raw> <h|x>        the same through fillPrevPrimes (leading 0 when start <= 2)
+  psgenref <start> <stop> <sieveKiB> <l1raw> <h|x>         (model only) the primes of [start, stop] from the PROVED window sieve
+                                                           `windowListWith wheelBase` (PcProofs/OracleWindow.lean), format of psgen
+  pscountref <start> <stop> <sieveKiB> <l1raw>             (model only) their number
   pswheeladd <30|210> <stop> <prime> <segmentLow>          Wheel::addSievingPrime: `multipleIndex wheelIndex` or `-`
   pspresieve <segmentLow> <size>                           PreSieve::preSieve on a fresh array: hex bytes
 
 `l1raw` is the raw L1 data cache size the harness forces into `cpuInfo` (0 = none detected).
 -/
 import PcModel.PsCore
+import PcModel.Oracle
 namespace Pc.Drv
 open Pc.PsCore
 
@@ -85,7 +89,22 @@ def psGenOp (prev : Bool) (a : List String) : String :=
     | _, _, _, _, _ => "ERR:proto"
   | _ => "ERR:proto"
 
+/-- the primes of `[start, stop]` by the proved reference sieve -/
+def psRefPrimes (start stop : Nat) : List Nat := windowListWith wheelBase (start - 1) stop
+
 def psCoreOps : String → Option (List String → String)
+  | "psgenref" => some fun a => match a with
+      | [start, stop, _, _, mode] => match start.toNat?, stop.toNat?, psMode mode with
+        | some start, some stop, some hex =>
+          if start > stop ∨ stop ≥ 2 ^ 64 ∨ stop - start > 2 ^ 31 then "ERR:domain" else
+          psPrimesOut hex (psRefPrimes start stop) false
+        | _, _, _ => "ERR:proto"
+      | _ => "ERR:proto"
+  | "pscountref" => some fun a => match a.map (·.toNat?) with
+      | [some start, some stop, _, _] =>
+        if stop ≥ 2 ^ 64 ∨ stop - start > 2 ^ 31 then "ERR:domain" else
+        toString (if start > stop then 0 else (psRefPrimes start stop).length)
+      | _ => "ERR:proto"
   | "pssieve" => some fun a => match a with
       | [start, stop, kb, l1, mode] => match start.toNat?, stop.toNat?, kb.toNat?, l1.toNat?, psMode mode with
         | some start, some stop, some kb, some l1, some hex =>
